@@ -89,7 +89,8 @@ def eval_roundtrip(case):
     if b != "default":
         f = {"finite-inside": ((0.2, 5.0), (0.2, 5.0)), "half-inside": ((0.2, np.inf), (0.2, np.inf)),
              "finite-truth-below": ((2.0, 10.0), (3.0, 9.0)), "finite-truth-above": ((0.01, 0.5), (0.02, 0.4)),
-             "half-truth-below": ((3.0, np.inf), (8.0, np.inf)), "fractional": ((0.2137, 5.0331), (0.2137, 5.0331))}[b]
+             "half-truth-below": ((3.0, np.inf), (8.0, np.inf)), "fractional": ((0.2137, 5.0331), (0.2137, 5.0331)),
+             "fractional-outside": ((2.13007, 9.70013), (0.50003, 4.00007))}[b]
         lo_hi = ((f[0][0] * M, f[0][1] * M), (f[1][0] * tau, f[1][1] * tau))
         kw["bounds"] = Bounds(M=lo_hi[0], tau=lo_hi[1])
     fc = ForecasterOnePhase(rf, **kw)
@@ -201,7 +202,7 @@ def cases(tier, seed):
     for c, tau, h in itertools.product(curves, [3.0, 900.0], [0.05, 2e4]):  # fit history on one forecaster
         out.append({"kind": "roundtrip", "curve": c, "M": 3e5, "tau": tau, "end": 3.0, "n": 50, "bounds": "default",
                     "history": h})
-    for c, b in itertools.product(curves, ["default", "fractional", "finite-truth-below"]):  # integer-typed data
+    for c, b in itertools.product(curves, ["default", "fractional", "finite-truth-below", "fractional-outside"]):  # integer-typed data
         out.append({"kind": "roundtrip", "curve": c, "M": 5000.0, "tau": 365.25, "end": 3.0, "n": 200, "bounds": b,
                     "dtype": "int"})
     for Mb, Tb in itertools.product([(0.0, np.inf), (2.0, 50.0), (5.0, np.inf)], [(1e-10, np.inf), (0.5, 4.0), (3.0, np.inf)]):
